@@ -4,8 +4,8 @@ TIER="${1:-quick}"
 cd "$(dirname "$0")/.."
 for i in 01 02 03 04 05 06 07 08 09 10 11 12 13 14 15 16 17 18 19 20; do
   s=$(date +%s)
-  bin/check C$i $TIER > build/run-C$i.log 2>&1
+  bin/check C$i $TIER > build/run-$TIER-C$i.log 2>&1
   rc=$?
   e=$(date +%s)
-  echo "C$i rc=$rc $((e-s))s $(grep -c '^VIOLATION' build/run-C$i.log) violations"
+  echo "C$i rc=$rc $((e-s))s $(grep -c '^VIOLATION' build/run-$TIER-C$i.log) violations"
 done
